@@ -1533,10 +1533,13 @@ def ref_alimerge(rng, i):
     clen = rng.choice([0, 1, 2, 5, 12, 30]) if rng.random() < 0.9 else 61
     cons = "".join(rng.choice("xX" + abc) for _ in range(clen))
     nali = rng.choice([2, 2, 3, 4])
+    narrow = rng.random() < 0.4
     use_list = nali != 2 or rng.random() < 0.3
     texts, k = [], 0
     for a in range(nali):
-        widths = [rng.choice([0, 0, 0, 1, 2, 3, 5]) for _ in range(clen + 1)]
+        # narrow: the widest insert of a region is 1 and some input has none there (the `maxgap[cpos] > 0` boundary of every placement branch)
+        pool = [0, 0, 1] if narrow else [0, 0, 0, 1, 2, 3, 5]
+        widths = [rng.choice(pool) for _ in range(clen + 1)]
         if clen == 0 and widths[0] == 0: widths[0] = 1
         rf, cols = "", []
         for c in range(clen + 1):
@@ -2787,7 +2790,7 @@ def reference_cases(ctx):
     per = 30 if ctx.tier == "quick" else 300
     out = []
     for tool, g in REF_GENERATORS:
-        for i in range(max(10, per // 3) if tool in ("easel index", "esl-reformat hmmpgmd") else (2 * per if tool in ("esl-translate", "esl-sfetch", "multi-alignment files") else per)):
+        for i in range(max(10, per // 3) if tool in ("easel index", "esl-reformat hmmpgmd") else (2 * per if tool in ("esl-translate", "esl-sfetch", "multi-alignment files", "esl-alimerge", "small modes") else per)):
             out.append(g(rng, i))
     out += sweep_cases(ctx)
     return out
